@@ -797,7 +797,7 @@ class Check(PropertyCheck):
         self.stream_merged(ctx, res)
         from .engine_common import EngineCheck
         ec = EngineCheck(); ec.prop = "C03"
-        ec.run_restart_split(ctx, res, 600 if ctx.thorough else 120)
+        ec.run_restart_split(ctx, res, 900 if ctx.thorough else 240)
         res.rule = ("restart-split: generated engine histories executed in one engine and with a restart at every build boundary, results and "
                     "executed sets compared. " + "db: op histories on the real BuildDB and on the model, compared line by line (structured histories: processes come and go, "
                     "builds commit/crash, client versions differ, second writer knocks, a BuildDB object outlives a recreate; a stream in which an object "
